@@ -1104,8 +1104,11 @@ func (e *Engine) overlay(r io.Reader, basePath string, asNew bool) error {
 
 		var newFiles []string
 		tr := tar.NewReader(r)
+		// When files are added as new ones, a TSM file and its tombstone file must end
+		// up under the same new name.
+		newNames := make(map[string]string)
 		for {
-			if fileName, err := e.readFileFromBackup(tr, basePath, asNew); err == io.EOF {
+			if fileName, err := e.readFileFromBackup(tr, basePath, asNew, newNames); err == io.EOF {
 				break
 			} else if err != nil {
 				return nil, err
@@ -1199,14 +1202,17 @@ func (e *Engine) overlay(r io.Reader, basePath string, asNew bool) error {
 // The file is skipped if it does not have a matching shardRelativePath prefix.
 // If asNew is true, each file will be installed as a new TSM file even if an
 // existing file with the same name in the backup exists.
-func (e *Engine) readFileFromBackup(tr *tar.Reader, shardRelativePath string, asNew bool) (string, error) {
+func (e *Engine) readFileFromBackup(tr *tar.Reader, shardRelativePath string, asNew bool, newNames map[string]string) (string, error) {
 	// Read next archive file.
 	hdr, err := tr.Next()
 	if err != nil {
 		return "", err
 	}
 
-	if !strings.HasSuffix(hdr.Name, TSMFileExtension) {
+	// The tombstone file of a TSM file holds the deletes that have not been compacted
+	// away yet: without it the deleted points come back in the restored shard.
+	isTombstone := strings.HasSuffix(hdr.Name, "."+TombstoneFileExtension)
+	if !strings.HasSuffix(hdr.Name, TSMFileExtension) && !isTombstone {
 		// This isn't a .tsm file.
 		return "", nil
 	}
@@ -1230,10 +1236,20 @@ func (e *Engine) readFileFromBackup(tr *tar.Reader, shardRelativePath string, as
 	}
 
 	if asNew {
-		filename = e.formatFileName(e.FileStore.NextGeneration(), 1) + "." + TSMFileExtension
+		ext := filepath.Ext(filename)
+		base := strings.TrimSuffix(filename, ext)
+		if _, ok := newNames[base]; !ok {
+			newNames[base] = e.formatFileName(e.FileStore.NextGeneration(), 1)
+		}
+		filename = newNames[base] + ext
 	}
 
 	tmp := fmt.Sprintf("%s.%s", filepath.Join(e.path, filename), TmpTSMFileExtension)
+	if isTombstone {
+		// Tombstones are read when the TSM file next to them is opened; they are
+		// written under their final name and are not handed to the file store.
+		tmp = filepath.Join(e.path, filename)
+	}
 	// Create new file on disk.
 	f, err := os.OpenFile(tmp, os.O_CREATE|os.O_RDWR, 0666)
 	if err != nil {
@@ -1251,6 +1267,9 @@ func (e *Engine) readFileFromBackup(tr *tar.Reader, shardRelativePath string, as
 		return "", err
 	}
 
+	if isTombstone {
+		return "", nil
+	}
 	return tmp, nil
 }
 
